@@ -43,7 +43,7 @@ def run(ctx):
         fields = engine.gen_fields(rnd, rnd.randint(1, 3), fmt)
         table = engine.gen_table(rnd, fields, fmt, rnd.randint(0, 7), p_bad=0.25)
         limit = rnd.choice([None, 0, 1, 2, 3, 4, 8])
-        scns.append({"format": fmt, "allowed": None, "fields": fields, "checks": engine.gen_checks(rnd, fields), "header": rnd.randint(0, 3),
+        scns.append({"format": fmt, "line": rnd.choice(["lf", "cr", "crlf", "any", "none"]), "allowed": None, "fields": fields, "checks": engine.gen_checks(rnd, fields), "header": rnd.randint(0, 3),
                      "runs": runs_for(table, limit), "bad": None})
     ctx.notes["exhaustive_cases"] = n_exh
     ctx.notes["random_cases"] = n
